@@ -291,6 +291,12 @@ func bestPracticesCheck(token jwt.Token) error {
 		return fmt.Errorf("token jti is not a valid uuid: %w", err)
 	}
 
+	// Ensure the token expires. jwt.Validate treats an exp of 0 (the Unix epoch) as "not set" and then skips the
+	// expiry check, so a present exp field does not guarantee the token expires: enforce it here as well.
+	if !time.Now().Before(token.Expiration()) {
+		return errors.New("token is expired")
+	}
+
 	// Ensure the expiration is no more than 24.5 hours after NotBefore
 	maxExpirationAfterNotBefore := token.NotBefore().Add(time.Minute * time.Duration(1470))
 	if token.Expiration().After(maxExpirationAfterNotBefore) {
